@@ -72,6 +72,20 @@ def main():
     seed = int(os.environ.get("VERIF_SEED", "0") or 0)
     os.environ["VERIF_TIER"] = tier
     t0 = time.time()
+    # trusted base first: the handler table must agree with torch on constant payloads (a disagreement is exit 2, never a verdict)
+    conf_n, conf_fail = 0, []
+    if os.environ.get("VERIF_SKIP_CONFORMANCE") != "1":
+        import warnings as _w
+
+        _w.filterwarnings("ignore")
+        from symtorch import conformance
+
+        conf_n, conf_fail = conformance.run(seed)
+        if conf_fail:
+            for x in conf_fail:
+                print(f"HARNESS-ERROR property={prop} handler conformance: {x}")
+            print(f"{prop}: handler conformance failed ({len(conf_fail)}/{conf_n}) -> exit 2")
+            sys.exit(2)
     mod = importlib.import_module(HARNESS[prop])
     tasks = mod.tasks(tier, seed)
     if a.only:
@@ -129,6 +143,7 @@ def main():
             "functions_hash": sorted({r.get("functions_hash", "") for r in results if r.get("functions_hash")}),
             "stubs": sorted({s for r in results for s in r.get("stubs", [])}),
             "opaque_ops": sorted({s for r in results for s in r.get("opaque", [])}),
+            "handler_conformance": f"{conf_n} cases (constant payloads vs torch, both theories), 0 disagreements",
             "tasks": len(results),
             "paths_explored": n_paths,
             "obligations": obligations,
